@@ -1,6 +1,7 @@
 package main
 
 import (
+	"os"
 	"bytes"
 	"encoding/hex"
 	"fmt"
@@ -134,6 +135,9 @@ func (c *SilentCase) Judge(rs []Res, env *Env) Outcome {
 		}
 		if modelledOps[want] && got != want && got != "WAIT" {
 			return fail("wrong-instruction", fmt.Sprintf("decodes to %s", in))
+		}
+		if os.Getenv("VERIF_C07_NOMODEL") != "" {
+			fmt.Printf("NOMODEL m%d `%s` -> %s  %s\n", c.Mode, c.Stmt, hex.EncodeToString(x), in)
 		}
 	}
 	o.Status = Held
